@@ -16,9 +16,30 @@ import time
 def load_mutants(pid):
     try:
         m = importlib.import_module(".mutants.%s" % pid.lower(), __package__)
+        out = list(m.MUTANTS)
     except ImportError:
-        return []
-    return list(m.MUTANTS)
+        out = []
+    # behaviour-preserving refactorings: every property's check must stay silent on each of them
+    try:
+        g = importlib.import_module(".mutants.controls_global", __package__)
+        out += [dict(x) for x in g.MUTANTS]
+    except ImportError:
+        pass
+    # independently written defects kept under /verif/seeded/<id>/ (patch.diff + meta.json naming the property they break)
+    import json
+    sd = os.path.join(os.path.dirname(os.path.dirname(os.path.abspath(__file__))), "seeded")
+    if os.path.isdir(sd):
+        for name in sorted(os.listdir(sd)):
+            meta = os.path.join(sd, name, "meta.json")
+            patch = os.path.join(sd, name, "patch.diff")
+            if os.path.exists(meta) and os.path.exists(patch):
+                try:
+                    mj = json.load(open(meta))
+                except ValueError:
+                    continue
+                if mj.get("property") == pid:
+                    out.append({"id": "seeded-" + name, "kind": "seed", "desc": "independent seeded change " + name, "edits": [], "patch": patch})
+    return out
 
 
 def apply_edits(root, edits):
@@ -43,6 +64,11 @@ def _work(args):
         shutil.copytree(os.path.join(src_root, "adb_shell"), os.path.join(d, "adb_shell"),
                         ignore=shutil.ignore_patterns("__pycache__", "*.pyc"))
         why = apply_edits(d, mutant["edits"])
+        if not why and mutant.get("patch"):
+            import subprocess
+            r = subprocess.run(["patch", "-p1", "-s", "--no-backup-if-mismatch", "-d", d, "-i", mutant["patch"]], stdout=subprocess.PIPE, stderr=subprocess.STDOUT)
+            if r.returncode != 0:
+                why = "patch does not apply to the current tree"
         if why:
             return mutant["id"], "skipped", why, []
         import ast
